@@ -1917,7 +1917,7 @@ fn gen_worlds(ctx: &Ctx, n: u32) -> Vec<Params> {
 }
 
 pub fn run(ctx: &Ctx) -> Report {
-    let n = ctx.tier.pick(160u32, 8000);
+    let n = ctx.tier.pick(320u32, 8000);
     let worlds = gen_worlds(ctx, n);
     let threads = ctx.threads.max(1);
     let mut report = par_workers(threads, |w| {
